@@ -218,7 +218,13 @@ Definition Rel (s : parent) (t : ideal) : Prop :=
 
 Lemma Inv_empty : Inv empty_parent.
 Proof.
-  constructor; simpl; try constructor; try tauto; intros; simpl in *; try tauto.
+  constructor; simpl.
+  - constructor.
+  - intros k. constructor.
+  - intros k nm id p. simpl. split; intros [].
+  - constructor.
+  - intros n [].
+  - intros n [].
 Qed.
 Lemma Rel_empty : Rel empty_parent [].
 Proof. intros nm k p. simpl. split; [intros [? []]|discriminate]. Qed.
@@ -315,14 +321,71 @@ Proof.
   - rewrite map_app. now apply NoDup_remove_1 in Hids.
 Qed.
 
+(* what a write does to the ideal tree when it succeeds there *)
+Lemma i_write_ok t k nm p : snd (i_step t (OWrite k nm p)) = 0 ->
+  fst (i_step t (OWrite k nm p)) = i_set nm (k, p) t /\
+  (forall k' q, i_get nm t = Some (k', q) -> k' = k).
+Proof.
+  simpl. destruct (i_get nm t) as [[k' q]|] eqn:G.
+  - seq_case k' k; simpl; intros H; [|discriminate]. split; auto. intros k2 q2 E2. inversion E2; subst; auto.
+  - intros _. split; auto. intros k' q E'. discriminate.
+Qed.
+
+Lemma append_sound s t k nm p :
+  Inv s -> Rel s t -> kok k = true -> snd (i_step t (OWrite k nm p)) = 0 ->
+  find_slot nm (mget k (p_mir s)) = None ->
+  let '(s', st, _) := append_new s k nm p in
+  st = 0 /\ Inv s' /\ Rel s' (i_set nm (k, p) t).
+Proof.
+  intros I R Hk Hst F. unfold append_new.
+  destruct (i_write_ok _ _ _ _ Hst) as [_ Hkind].
+    apply find_slot_none in F.
+    assert (Hnf : ~ In nm (map f_name (p_file s))).
+    { intros H. apply in_map_iff in H. destruct H as [x [Ex Hx]].
+      assert (Hg : i_get nm t = Some (f_kind x, f_pay x)).
+      { apply R. exists (f_id x). rewrite <- Ex. now rewrite <- fnode_eta. }
+      pose proof (Hkind _ _ Hg) as E.
+      apply F. apply in_map_iff. exists (mkS nm (f_id x) (f_pay x)). split; auto.
+      apply (inv_sync _ I). rewrite <- E, <- Ex. now rewrite <- fnode_eta. }
+    destruct (file_has nm (p_file s)) eqn:Hh; [apply file_has_true in Hh; tauto|]. clear Hh.
+    split; [reflexivity|]. split.
+    + constructor; simpl.
+      * rewrite map_app. simpl. apply NoDup_snoc; auto. apply I.
+      * intros k'. destruct (string_dec k' k) as [->|Hne].
+        -- rewrite mget_mset_eq. rewrite map_app. simpl. apply NoDup_snoc; auto. apply I.
+        -- rewrite mget_mset_neq; auto. apply I.
+      * intros k' nm' id' p'. rewrite in_app_iff. simpl. destruct (string_dec k' k) as [->|Hne].
+        -- rewrite mget_mset_eq. rewrite in_app_iff. simpl. rewrite (inv_sync _ I). split.
+           ++ intros [?|[Hx|[]]]; auto. inversion Hx; subst. right. now left.
+           ++ intros [?|[Hx|[]]]; auto. inversion Hx; subst. right. now left.
+        -- rewrite mget_mset_neq; auto. rewrite (inv_sync _ I). split; auto.
+           intros [?|[Hx|[]]]; auto. inversion Hx; congruence.
+      * rewrite map_app. simpl. apply NoDup_snoc; [apply I|].
+        intros H. apply in_map_iff in H. destruct H as [x [Ex Hx]]. apply (inv_next _ I) in Hx. lia.
+      * intros n Hn. apply in_app_or in Hn. destruct Hn as [Hn|[<-|[]]]; simpl; [|lia].
+        apply (inv_next _ I) in Hn. lia.
+      * intros n Hn. apply in_app_or in Hn. destruct Hn as [Hn|[<-|[]]]; simpl; auto. now apply (inv_kinds _ I).
+    + intros nm' k' p'. rewrite i_get_set. simpl. seq_case nm nm'.
+      * subst nm'. split.
+        -- intros [id Hx]. apply in_app_or in Hx. destruct Hx as [Hx|[Hx|[]]].
+           ++ exfalso. apply Hnf. apply in_map_iff. exists (mkF id k' nm p'). auto.
+           ++ inversion Hx; subst. reflexivity.
+        -- intros E'. inversion E'; subst. exists (p_next s). apply in_or_app. right. now left.
+      * rewrite <- (R nm' k' p'). split.
+        -- intros [id Hx]. apply in_app_or in Hx. destruct Hx as [Hx|[Hx|[]]]; [eauto|inversion Hx; congruence].
+        -- intros [id Hx]. exists id. apply in_or_app. now left.
+Qed.
+
 Lemma write_sound s t k nm p :
   Inv s -> Rel s t -> kok k = true -> snd (i_step t (OWrite k nm p)) = 0 ->
   let '(s', st, _) := write s k nm p in
   st = 0 /\ Inv s' /\ Rel s' (fst (i_step t (OWrite k nm p))).
 Proof.
   intros I R Hk Hst. unfold write.
-  destruct (find_slot nm (mget k (p_mir s))) as [i|] eqn:F.
-  - (* overwrite in the same slot *)
+  destruct (i_write_ok _ _ _ _ Hst) as [Ht0 _].
+  destruct (find_slot nm (mget k (p_mir s))) as [i|] eqn:F;
+    [|rewrite Ht0; now apply append_sound].
+  (* overwrite in the same slot *)
     apply find_slot_some in F. destruct F as [a [sl [b [Hl [Hlen [Hname Ha]]]]]].
     rewrite Hl. rewrite <- Hlen. rewrite nth_error_split_len.
     assert (Hin : In (mkF (s_id sl) k nm (s_pay sl)) (p_file s)).
@@ -393,47 +456,89 @@ Proof.
            apply Hf1 in Hx. exists id. tauto.
         -- intros [id Hx]. exists id. apply in_or_app. left. apply Hf1. split; auto. simpl. intros E'. subst id.
            pose proof (same_id _ _ _ I Hx Hin eq_refl) as E'. inversion E'; congruence.
-  - (* a new sibling: appended to the array and to the file *)
-    apply find_slot_none in F.
-    assert (Hnf : ~ In nm (map f_name (p_file s))).
-    { intros H. apply in_map_iff in H. destruct H as [x [Ex Hx]].
-      assert (Hg : i_get nm t = Some (f_kind x, f_pay x)).
-      { apply R. exists (f_id x). rewrite <- Ex. now rewrite <- fnode_eta. }
-      simpl in Hst. rewrite Hg in Hst. seq_case (f_kind x) k; [|simpl in Hst; discriminate].
-      apply F. apply in_map_iff. exists (mkS nm (f_id x) (f_pay x)). split; auto.
-      apply (inv_sync _ I). rewrite <- E, <- Ex. now rewrite <- fnode_eta. }
-    destruct (file_has nm (p_file s)) eqn:Hh; [apply file_has_true in Hh; tauto|]. clear Hh.
-    assert (Hg : i_get nm t = None).
-    { destruct (i_get nm t) as [[k' p']|] eqn:G; auto. apply R in G. destruct G as [id G].
-      exfalso. apply Hnf. apply in_map_iff. exists (mkF id k' nm p'). auto. }
-    assert (Ht : fst (i_step t (OWrite k nm p)) = i_set nm (k, p) t) by (simpl; now rewrite Hg).
-    rewrite Ht. clear Ht Hst.
-    split; [reflexivity|]. split.
-    + constructor; simpl.
-      * rewrite map_app. simpl. apply NoDup_snoc; auto. apply I.
-      * intros k'. destruct (string_dec k' k) as [->|Hne].
-        -- rewrite mget_mset_eq. rewrite map_app. simpl. apply NoDup_snoc; auto. apply I.
-        -- rewrite mget_mset_neq; auto. apply I.
-      * intros k' nm' id' p'. rewrite in_app_iff. simpl. destruct (string_dec k' k) as [->|Hne].
-        -- rewrite mget_mset_eq. rewrite in_app_iff. simpl. rewrite (inv_sync _ I). split.
-           ++ intros [?|[Hx|[]]]; auto. inversion Hx; subst. right. now left.
-           ++ intros [?|[Hx|[]]]; auto. inversion Hx; subst. right. now left.
-        -- rewrite mget_mset_neq; auto. rewrite (inv_sync _ I). split; auto.
-           intros [?|[Hx|[]]]; auto. inversion Hx; congruence.
-      * rewrite map_app. simpl. apply NoDup_snoc; [apply I|].
-        intros H. apply in_map_iff in H. destruct H as [x [Ex Hx]]. apply (inv_next _ I) in Hx. lia.
-      * intros n Hn. apply in_app_or in Hn. destruct Hn as [Hn|[<-|[]]]; simpl; [|lia].
-        apply (inv_next _ I) in Hn. lia.
-      * intros n Hn. apply in_app_or in Hn. destruct Hn as [Hn|[<-|[]]]; simpl; auto. now apply (inv_kinds _ I).
-    + intros nm' k' p'. rewrite i_get_set. simpl. seq_case nm nm'.
-      * subst nm'. split.
-        -- intros [id Hx]. apply in_app_or in Hx. destruct Hx as [Hx|[Hx|[]]].
-           ++ exfalso. apply Hnf. apply in_map_iff. exists (mkF id k' nm p'). auto.
-           ++ inversion Hx; subst. reflexivity.
-        -- intros E'. inversion E'; subst. exists (p_next s). apply in_or_app. right. now left.
-      * rewrite <- (R nm' k' p'). split.
-        -- intros [id Hx]. apply in_app_or in Hx. destruct Hx as [Hx|[Hx|[]]]; [eauto|inversion Hx; congruence].
-        -- intros [id Hx]. exists id. apply in_or_app. now left.
+Qed.
+
+Lemma updn_id id p n : f_id (updn id p n) = f_id n.
+Proof. unfold updn. destruct (f_id n =? id); reflexivity. Qed.
+Lemma updn_name id p n : f_name (updn id p n) = f_name n.
+Proof. unfold updn. destruct (f_id n =? id); reflexivity. Qed.
+Lemma updn_kind id p n : f_kind (updn id p n) = f_kind n.
+Proof. unfold updn. destruct (f_id n =? id); reflexivity. Qed.
+Lemma updn_other id p n : f_id n <> id -> updn id p n = n.
+Proof. unfold updn. intros H. destruct (Z.eqb_spec (f_id n) id); [congruence|reflexivity]. Qed.
+Lemma updn_hit id p k nm q : updn id p (mkF id k nm q) = mkF id k nm p.
+Proof. unfold updn. simpl. now rewrite Z.eqb_refl. Qed.
+
+Lemma write_inplace_sound s t k nm p :
+  Inv s -> Rel s t -> kok k = true -> snd (i_step t (OWrite k nm p)) = 0 ->
+  let '(s', st, _) := write_inplace s k nm p in
+  st = 0 /\ Inv s' /\ Rel s' (fst (i_step t (OWrite k nm p))).
+Proof.
+  intros I R Hk Hst. unfold write_inplace.
+  destruct (i_write_ok _ _ _ _ Hst) as [Ht0 _]. rewrite Ht0.
+  destruct (find_slot nm (mget k (p_mir s))) as [i|] eqn:F; [|now apply append_sound].
+  apply find_slot_some in F. destruct F as [a [sl [b [Hl [Hlen [Hname Ha]]]]]].
+  rewrite Hl. rewrite <- Hlen. rewrite nth_error_split_len. rewrite set_nth_split.
+  set (id := s_id sl).
+  assert (Hin : In (mkF id k nm (s_pay sl)) (p_file s)).
+  { apply (inv_sync _ I). rewrite Hl. apply in_or_app. right. left. rewrite <- Hname. unfold id. now destruct sl. }
+  pose proof (inv_mnames _ I k) as Hmn. rewrite Hl in Hmn. rewrite map_app in Hmn. simpl in Hmn.
+  assert (Hb : ~ In nm (map s_name b)).
+  { apply NoDup_remove_2 in Hmn. rewrite Hname in Hmn. intros ?. apply Hmn. apply in_or_app. now right. }
+  (* a file node with this id is the node being rewritten *)
+  assert (Hsame : forall y, In y (p_file s) -> f_id y = id -> y = mkF id k nm (s_pay sl)).
+  { intros y Hy E. eapply same_id; eauto. }
+  split; [reflexivity|]. split.
+  - constructor; simpl.
+    + unfold file_upd. rewrite map_map. erewrite map_ext; [apply I|]. intros y. apply updn_name.
+    + intros k'. destruct (string_dec k' k) as [->|Hne].
+      * rewrite mget_mset_eq. rewrite map_app. simpl. rewrite <- Hname. exact Hmn.
+      * rewrite mget_mset_neq; auto. apply I.
+    + intros k' nm' id' p'. unfold file_upd. rewrite in_map_iff. destruct (string_dec k' k) as [->|Hne].
+      * rewrite mget_mset_eq. rewrite in_app_iff. simpl. split.
+        -- intros [Hx|[Hx|Hx]].
+           ++ exists (mkF id' k nm' p'). assert (Hf : In (mkF id' k nm' p') (p_file s)).
+              { apply (inv_sync _ I). rewrite Hl. apply in_or_app. now left. }
+              split; auto. apply updn_other. simpl. intros E.
+              pose proof (Hsame _ Hf E) as E2. inversion E2; subst.
+              apply Ha. apply (in_map s_name) in Hx. exact Hx.
+           ++ injection Hx as <- <- <-. exists (mkF id k nm (s_pay sl)). split; auto. apply updn_hit.
+           ++ exists (mkF id' k nm' p'). assert (Hf : In (mkF id' k nm' p') (p_file s)).
+              { apply (inv_sync _ I). rewrite Hl. apply in_or_app. right. now right. }
+              split; auto. apply updn_other. simpl. intros E.
+              pose proof (Hsame _ Hf E) as E2. inversion E2; subst.
+              apply Hb. apply (in_map s_name) in Hx. exact Hx.
+        -- intros [y [Ey Hy]]. destruct (Z.eq_dec (f_id y) id) as [E|E].
+           ++ rewrite (Hsame _ Hy E) in Ey. rewrite updn_hit in Ey. inversion Ey; subst. right. now left.
+           ++ rewrite updn_other in Ey; auto. subst y. apply (inv_sync _ I) in Hy. rewrite Hl in Hy.
+              apply in_app_or in Hy. destruct Hy as [Hy|[Hy|Hy]]; auto.
+              exfalso. apply E. subst sl. reflexivity.
+      * rewrite mget_mset_neq; auto. rewrite (inv_sync _ I). split.
+        -- intros Hx. exists (mkF id' k' nm' p'). split; auto. apply updn_other. simpl. intros E.
+           pose proof (Hsame _ Hx E) as E2. inversion E2. congruence.
+        -- intros [y [Ey Hy]]. destruct (Z.eq_dec (f_id y) id) as [E|E].
+           ++ rewrite (Hsame _ Hy E) in Ey. rewrite updn_hit in Ey. inversion Ey. congruence.
+           ++ rewrite updn_other in Ey; auto. now subst y.
+    + unfold file_upd. rewrite map_map. erewrite map_ext; [apply I|]. intros y. apply updn_id.
+    + intros n Hn. unfold file_upd in Hn. apply in_map_iff in Hn. destruct Hn as [y [<- Hy]]. rewrite updn_id.
+      now apply (inv_next _ I).
+    + intros n Hn. unfold file_upd in Hn. apply in_map_iff in Hn. destruct Hn as [y [<- Hy]]. rewrite updn_kind.
+      now apply (inv_kinds _ I).
+  - intros nm' k' p'. rewrite i_get_set. simpl. unfold file_upd. seq_case nm nm'.
+    + subst nm'. split.
+      * intros [id' Hx]. apply in_map_iff in Hx. destruct Hx as [y [Ey Hy]].
+        assert (Ey' : y = mkF id k nm (s_pay sl)).
+        { eapply same_name; eauto. rewrite <- (updn_name id p y). rewrite Ey. reflexivity. }
+        subst y. rewrite updn_hit in Ey. injection Ey as _ <- <-. reflexivity.
+      * intros E'. injection E' as <- <-. exists id. apply in_map_iff. exists (mkF id k nm (s_pay sl)).
+        split; auto. apply updn_hit.
+    + rewrite <- (R nm' k' p'). split.
+      * intros [id' Hx]. apply in_map_iff in Hx. destruct Hx as [y [Ey Hy]].
+        destruct (Z.eq_dec (f_id y) id) as [E'|E'].
+        -- rewrite (Hsame _ Hy E') in Ey. rewrite updn_hit in Ey. inversion Ey. congruence.
+        -- rewrite updn_other in Ey; auto. subst y. eauto.
+      * intros [id' Hx]. exists id'. apply in_map_iff. exists (mkF id' k' nm' p'). split; auto.
+        apply updn_other. simpl. intros E'. pose proof (Hsame _ Hx E') as E2. inversion E2. congruence.
 Qed.
 
 Lemma delete_sound s t nm :
@@ -479,12 +584,11 @@ Proof.
               assert (Hx' : In (mkF (f_id n) k nm' p') (p_file s)).
               { apply (inv_sync _ I). rewrite Hl. rewrite in_app_iff. simpl. tauto. }
               pose proof (same_id _ _ _ I Hx' Hin eq_refl) as E. rewrite (fnode_eta n) in E. inversion E; subst.
-              destruct Hx as [Hx|Hx]; [apply Ha|apply Hb]; apply in_map_iff;
-                exists (mkS (f_name n) (f_id n) p'); auto.
+              destruct Hx as [Hx|Hx]; apply (in_map s_name) in Hx; simpl in Hx; [apply Ha|apply Hb]; exact Hx.
            ++ intros [[Hx|[Hx|Hx]] Hne]; auto. subst sl. inversion Hx; subst. congruence.
         -- rewrite mget_mset_neq; auto. rewrite (inv_sync _ I). rewrite Hf1. simpl. split; [|tauto].
            intros Hx. split; auto. intros E. subst id'.
-           pose proof (same_id _ _ _ I Hx Hin eq_refl) as E. rewrite (fnode_eta n) in E. inversion E. congruence.
+           pose proof (same_id _ _ _ I Hx Hin eq_refl) as E. apply Hne. unfold k. rewrite <- E. reflexivity.
       * intros m Hm. apply Hf1 in Hm. now apply (inv_next _ I).
       * intros m Hm. apply Hf1 in Hm. now apply (inv_kinds _ I).
     + intros nm' k' p'. simpl. seq_case nm' nm.
@@ -532,21 +636,28 @@ Proof. reflexivity. Qed.
 (* the operations of the history are within scope: kinds for which the dispatcher is sound, names that are not reserved *)
 Definition ops_ok (ops : list op) : Prop := Forall (fun o => op_names_ok kok nok o = true) ops.
 (* every write of the history succeeds in the IDEAL tree (it never re-uses a name taken by a sibling of another kind) *)
+Definition write_succeeds (t : ideal) (o : op) : Prop :=
+  match o with OWrite _ _ _ | OUpdate _ _ _ => snd (i_step t o) = 0 | _ => True end.
 Fixpoint writes_ok (t : ideal) (ops : list op) : Prop :=
   match ops with
   | [] => True
-  | o :: r => (match o with OWrite _ _ _ => snd (i_step t o) = 0 | _ => True end) /\ writes_ok (fst (i_step t o)) r
+  | o :: r => write_succeeds t o /\ writes_ok (fst (i_step t o)) r
   end.
 
 Lemma step_sound s t o :
   Inv s -> Rel s t -> disp_ok -> op_names_ok kok nok o = true ->
-  (match o with OWrite _ _ _ => snd (i_step t o) = 0 | _ => True end) ->
+  write_succeeds t o ->
   snd (step disp s o) = snd (i_step t o) /\ Inv (fst (step disp s o)) /\ Rel (fst (step disp s o)) (fst (i_step t o)).
 Proof.
-  intros I R D Hn Hw. destruct o as [k nm p|nm|].
+  intros I R D Hn Hw. destruct o as [k nm p|k nm p|nm|].
   - simpl in Hn. apply andb_prop in Hn. destruct Hn as [Hk Hnm].
     pose proof (write_sound s t k nm p I R Hk Hw) as H.
-    unfold step. destruct (write s k nm p) as [[s' st] idx]. simpl. destruct H as [-> [? ?]]. rewrite Hw. auto.
+    unfold step. destruct (write s k nm p) as [[s' st] idx]. destruct H as [-> [? ?]]. cbn [fst snd].
+    split; [symmetry; exact Hw|split; assumption].
+  - simpl in Hn. apply andb_prop in Hn. destruct Hn as [Hk Hnm].
+    pose proof (write_inplace_sound s t k nm p I R Hk Hw) as H.
+    unfold step. destruct (write_inplace s k nm p) as [[s' st] idx]. destruct H as [-> [? ?]]. cbn [fst snd].
+    split; [symmetry; exact Hw|split; assumption].
   - pose proof (delete_sound s t nm I R D Hn) as H. unfold step.
     destruct (delete disp s nm) as [s' st]. simpl in *. tauto.
   - simpl. split; auto. split; [now apply reopen_sound|]. intros nm k p. simpl. apply R.
@@ -594,21 +705,26 @@ Qed.
 
 (* an operation on one name leaves every other name's payload as it was, in both views *)
 Definition op_name (o : op) : option string :=
-  match o with OWrite _ nm _ => Some nm | ODelete nm => Some nm | OReopen => None end.
+  match o with OWrite _ nm _ | OUpdate _ nm _ => Some nm | ODelete nm => Some nm | OReopen => None end.
 
 Lemma i_step_frame t o nm' : op_name o <> Some nm' -> i_get nm' (fst (i_step t o)) = i_get nm' t.
 Proof.
-  destruct o as [k nm p|nm|]; simpl; intros H; auto.
-  - assert (nm <> nm') by congruence.
-    destruct (i_get nm t) as [[k' q]|]; [destruct (String.eqb k' k)|]; simpl; auto;
-      rewrite i_get_set; destruct (String.eqb nm nm') eqn:E; auto; apply seqb_eq in E; congruence.
-  - assert (nm' <> nm) by congruence.
-    destruct (i_get nm t); simpl; auto. now apply i_get_remove_neq.
+  destruct o as [k nm p|k nm p|nm|]; intros H; auto.
+  - assert (Hn : nm <> nm') by (simpl in H; congruence).
+    assert (Hs : i_get nm' (i_set nm (k, p) t) = i_get nm' t).
+    { rewrite i_get_set. destruct (String.eqb nm nm') eqn:E; auto. apply seqb_eq in E. congruence. }
+    unfold i_step. destruct (i_get nm t) as [[k' q]|]; [destruct (String.eqb k' k)|]; cbn [fst]; auto.
+  - assert (Hn : nm <> nm') by (simpl in H; congruence).
+    assert (Hs : i_get nm' (i_set nm (k, p) t) = i_get nm' t).
+    { rewrite i_get_set. destruct (String.eqb nm nm') eqn:E; auto. apply seqb_eq in E. congruence. }
+    unfold i_step. destruct (i_get nm t) as [[k' q]|]; [destruct (String.eqb k' k)|]; cbn [fst]; auto.
+  - assert (Hn : nm' <> nm) by (simpl in H; congruence).
+    unfold i_step. destruct (i_get nm t); cbn [fst]; auto. now apply i_get_remove_neq.
 Qed.
 
 Theorem step_frame s t o :
   Inv s -> Rel s t -> disp_ok -> op_names_ok kok nok o = true ->
-  (match o with OWrite _ _ _ => snd (i_step t o) = 0 | _ => True end) ->
+  write_succeeds t o ->
   forall k' nm', op_name o <> Some nm' ->
     vlookup nm' (view_session (fst (step disp s o)) k') = vlookup nm' (view_session s k') /\
     vlookup nm' (view_file (fst (step disp s o)) k') = vlookup nm' (view_file s k').
@@ -662,17 +778,88 @@ Lemma filter_app_kind k (a b : list fnode) :
   filter (fun n => String.eqb (f_kind n) k) a ++ filter (fun n => String.eqb (f_kind n) k) b.
 Proof. apply filter_app. Qed.
 
+Lemma map_split_mid {A B} (f : A -> B) l a x b : map f l = a ++ x :: b ->
+  exists la n lb, l = la ++ n :: lb /\ map f la = a /\ f n = x /\ map f lb = b.
+Proof.
+  revert a. induction l as [|y r IH]; intros a H.
+  - destruct a; discriminate.
+  - destruct a as [|z a]; simpl in H.
+    + injection H as E1 E2. exists [], y, r. simpl. auto.
+    + injection H as E1 E2. destruct (IH a E2) as [la [n [lb [-> [Ea [En Eb]]]]]].
+      exists (y :: la), n, lb. simpl. rewrite Ea, E1. auto.
+Qed.
+
+Lemma append_order s t k nm p :
+  Inv s -> Rel s t -> OrdInv s -> kok k = true -> snd (i_step t (OWrite k nm p)) = 0 ->
+  find_slot nm (mget k (p_mir s)) = None ->
+  OrdInv (fst (fst (append_new s k nm p))).
+Proof.
+  intros I R O Hk Hst F.
+  pose proof (append_sound s t k nm p I R Hk Hst F) as AS. unfold append_new in *.
+  destruct (file_has nm (p_file s)) eqn:Hh.
+  - destruct AS as [AS _]. discriminate.
+  - simpl. intros k'. simpl. destruct (string_dec k' k) as [->|Hne].
+    + rewrite mget_mset_eq. rewrite filter_app_kind. simpl. rewrite seqb_refl. rewrite map_app. simpl.
+      now rewrite (O k).
+    + rewrite mget_mset_neq; auto. rewrite filter_app_kind. simpl.
+      destruct (String.eqb k k') eqn:E'; [apply seqb_eq in E'; congruence|]. rewrite app_nil_r. apply O.
+Qed.
+
+(* rewriting an array in place keeps every index *)
+Lemma inplace_order s t k nm p :
+  Inv s -> Rel s t -> OrdInv s -> kok k = true -> snd (i_step t (OWrite k nm p)) = 0 ->
+  OrdInv (fst (fst (write_inplace s k nm p))).
+Proof.
+  intros I R O Hk Hst. unfold write_inplace.
+  destruct (find_slot nm (mget k (p_mir s))) as [i|] eqn:F; [|now apply (append_order s t)].
+  apply find_slot_some in F. destruct F as [a [sl [b [Hl [Hlen [Hname Ha]]]]]].
+  rewrite Hl. rewrite <- Hlen. rewrite nth_error_split_len. rewrite set_nth_split. simpl.
+  set (id := s_id sl).
+  assert (Hin : In (mkF id k nm (s_pay sl)) (p_file s)).
+  { apply (inv_sync _ I). rewrite Hl. apply in_or_app. right. left. rewrite <- Hname. unfold id. now destruct sl. }
+  assert (Hfilt : forall k' f, filter (fun n => String.eqb (f_kind n) k') (file_upd id p f)
+                               = file_upd id p (filter (fun n => String.eqb (f_kind n) k') f)).
+  { intros k' f. unfold file_upd. induction f as [|y r IH]; simpl; auto. rewrite updn_kind.
+    destruct (String.eqb (f_kind y) k'); simpl; now rewrite IH. }
+  intros k'. simpl. rewrite Hfilt. destruct (string_dec k' k) as [->|Hne].
+  - rewrite mget_mset_eq.
+    (* the file's children of kind k, split at the node being rewritten *)
+    pose proof (O k) as Ok. rewrite Hl in Ok.
+    assert (Hids : NoDup (map f_id (filter (fun n => String.eqb (f_kind n) k) (p_file s)))).
+    { apply NoDup_map_filter. apply I. }
+    revert Ok Hids. generalize (filter (fun n => String.eqb (f_kind n) k) (p_file s)) as fl.
+    intros fl Ok Hids.
+    destruct (map_split_mid slot_of fl a sl b (eq_sym Ok)) as [fa [n [fb [-> [Ea [En Eb]]]]]].
+    rewrite map_app in Hids. simpl in Hids.
+    assert (En' : f_id n = id) by (unfold id; rewrite <- En; reflexivity).
+    unfold file_upd. rewrite map_app. simpl. rewrite !map_app. simpl.
+    assert (Hfa : map slot_of (map (updn id p) fa) = a).
+    { rewrite <- Ea. rewrite map_map. apply map_ext_in. intros y Hy. rewrite updn_other; auto.
+      intros E. apply NoDup_remove_2 in Hids. apply Hids. apply in_or_app. left. rewrite En', <- E. now apply in_map. }
+    assert (Hfb : map slot_of (map (updn id p) fb) = b).
+    { rewrite <- Eb. rewrite map_map. apply map_ext_in. intros y Hy. rewrite updn_other; auto.
+      intros E. apply NoDup_remove_2 in Hids. apply Hids. apply in_or_app. right. rewrite En', <- E. now apply in_map. }
+    rewrite Hfa, Hfb. f_equal. f_equal.
+    unfold updn. rewrite En', Z.eqb_refl. unfold slot_of. simpl. rewrite En'.
+    f_equal. rewrite <- Hname, <- En. reflexivity.
+  - rewrite mget_mset_neq; auto. rewrite (O k'). unfold file_upd. rewrite map_map. apply map_ext_in.
+    intros y Hy. apply filter_In in Hy. destruct Hy as [Hy Hk']. apply seqb_eq in Hk'.
+    rewrite updn_other; auto. intros E.
+    assert (y = mkF id k nm (s_pay sl)) by (eapply same_id; eauto). subst y. simpl in Hk'. congruence.
+Qed.
+
 Lemma step_order s t o :
   Inv s -> Rel s t -> OrdInv s -> disp_ok -> op_names_ok kok nok o = true ->
-  (match o with OWrite _ _ _ => snd (i_step t o) = 0 | _ => True end) ->
+  write_succeeds t o ->
   order_safe s o = true -> OrdInv (fst (step disp s o)).
 Proof.
-  intros I R O D Hn Hw Hs. destruct o as [k nm p|nm|]; [| |apply OrdInv_reopen].
+  intros I R O D Hn Hw Hs. destruct o as [k nm p|k nm p|nm|]; [| | |apply OrdInv_reopen].
   - (* write *)
     simpl in Hn. apply andb_prop in Hn. destruct Hn as [Hk _].
-    pose proof (write_sound s t k nm p I R Hk Hw) as WS.
-    unfold step. unfold write in *. simpl in Hs.
-    destruct (find_slot nm (mget k (p_mir s))) as [i|] eqn:F.
+    assert (Hgoal : OrdInv (fst (fst (write s k nm p)))).
+    2:{ unfold step. destruct (write s k nm p) as [[s' st] idx]. exact Hgoal. }
+    unfold write in *. unfold order_safe in Hs.
+    destruct (find_slot nm (mget k (p_mir s))) as [i|] eqn:F; [|now apply (append_order s t)].
     + apply Nat.eqb_eq in Hs.
       apply find_slot_some in F. destruct F as [a [sl [b [Hl [Hlen [Hname Ha]]]]]].
       assert (Hb : b = []).
@@ -697,11 +884,12 @@ Proof.
       { assert (E2 : map slot_of (filter (fun n0 => String.eqb (f_kind n0) k) fb) = []).
         { unfold slot_of at 2 in Ok. rewrite En in Ok. simpl in Ok.
           assert (Esl : sl = mkS nm (s_id sl) (s_pay sl)) by (rewrite <- Hname; now destruct sl).
-          rewrite Esl in Ok at 1. symmetry in Ok. eapply app_snoc_last; [exact Ok|].
+          rewrite <- Esl in Ok. symmetry in Ok. eapply app_snoc_last; [exact Ok|].
           intros Hx. apply in_map_iff in Hx. destruct Hx as [m [Em Hm]]. apply filter_In in Hm. destruct Hm as [Hm _].
+          assert (Eid : f_id m = s_id sl) by (rewrite <- Em; reflexivity).
           pose proof (inv_ids _ I) as Hids. rewrite Hf in Hids. rewrite map_app in Hids. simpl in Hids.
-          apply NoDup_remove_2 in Hids. apply Hids. apply in_or_app. right. rewrite Hid.
-          unfold slot_of in Em. inversion Em. rewrite <- H1. now apply in_map. }
+          apply NoDup_remove_2 in Hids. apply Hids. apply in_or_app. right. rewrite Hid, <- Eid.
+          now apply in_map. }
         destruct (filter (fun n0 => String.eqb (f_kind n0) k) fb); auto. discriminate. }
       rewrite Hfb in Ok. simpl in Ok. apply app_inj_tail in Ok. destruct Ok as [Ea _].
       intros k'. simpl. destruct (string_dec k' k) as [->|Hne].
@@ -710,15 +898,10 @@ Proof.
       * rewrite mget_mset_neq; auto. rewrite (O k'). rewrite Hf. rewrite !filter_app_kind. simpl.
         rewrite En. simpl. destruct (String.eqb k k') eqn:E'; [apply seqb_eq in E'; congruence|].
         now rewrite app_nil_r.
-    + (* append *)
-      apply find_slot_none in F.
-      destruct (file_has nm (p_file s)) eqn:Hh.
-      * destruct WS as [WS _]. discriminate.
-      * simpl. intros k'. simpl. destruct (string_dec k' k) as [->|Hne].
-        -- rewrite mget_mset_eq. rewrite filter_app_kind. simpl. rewrite seqb_refl. rewrite map_app. simpl.
-           now rewrite (O k).
-        -- rewrite mget_mset_neq; auto. rewrite filter_app_kind. simpl.
-           destruct (String.eqb k k') eqn:E'; [apply seqb_eq in E'; congruence|]. rewrite app_nil_r. apply O.
+  - (* rewrite in place *)
+    simpl in Hn. apply andb_prop in Hn. destruct Hn as [Hk _].
+    pose proof (inplace_order s t k nm p I R O Hk Hw) as Hgoal.
+    unfold step. destruct (write_inplace s k nm p) as [[s' st] idx]. exact Hgoal.
   - (* delete *)
     unfold step, delete.
     destruct (file_find nm (p_file s)) as [n|] eqn:F; [|exact O].
@@ -758,8 +941,8 @@ End Content.
 Lemma test_matches_lab pl nl nn t : ~ In nn (test_names t) -> test_matches pl nl nn t = test_is_label nl t.
 Proof.
   destruct t; simpl; intros H; auto.
-  - destruct (String.eqb nn n) eqn:E; auto. apply seqb_eq in E. tauto.
-  - destruct (String.eqb nn n) eqn:E; [apply seqb_eq in E; tauto|]. now rewrite andb_false_r.
+  - destruct (String.eqb nn n) eqn:E; auto. apply seqb_eq in E. subst. tauto.
+  - destruct (String.eqb nn n) eqn:E; [apply seqb_eq in E; subst; tauto|]. now rewrite andb_false_r.
 Qed.
 Lemma existsb_ext_in {A} (f g : A -> bool) l : (forall x, In x l -> f x = g x) -> existsb f l = existsb g l.
 Proof.
@@ -773,7 +956,8 @@ Proof.
 Qed.
 Lemma find_ext_in {A} (f g : A -> bool) l : (forall x, In x l -> f x = g x) -> find f l = find g l.
 Proof.
-  induction l; simpl; intros H; auto. rewrite H by now left. destruct (g a); auto. apply IHl. intros; apply H; now right.
+  induction l; simpl; intros H; auto. rewrite H by now left. destruct (g a); [reflexivity|].
+  apply IHl. intros; apply H; now right.
 Qed.
 
 Lemma disp_of_unreserved dt nd gt pl nl nn :
@@ -823,6 +1007,61 @@ Proof.
   intros k nm Hk Hn. apply dispatch_sound.
   - now apply smem_in.
   - intros H. apply smem_in in H. rewrite H in Hn. discriminate.
+Qed.
+
+Lemma dedup_in x l : In x l -> In x (dedup l).
+Proof.
+  induction l as [|y r IH]; simpl; intros H; [tauto|].
+  destruct (smem y r) eqn:E.
+  - destruct H as [->|H]; auto. apply IH. now apply smem_in.
+  - destruct H as [->|H]; [now left|right; auto].
+Qed.
+
+(* ... and when the name IS reserved, either the triple is listed in [shadowed_at] or the right thing still happens *)
+Theorem dispatch_reserved dt nd gt pl nl nn :
+  In nl (sound_kinds dt nd gt pl) -> ~ In (pl, nl, nn) (shadowed_at dt nd gt pl) ->
+  disp_of dt nd gt pl nl nn = DShift nl \/ disp_of dt nd gt pl nl nn = DRefuse.
+Proof.
+  intros Hk Hs.
+  destruct (in_dec string_dec nn (reserved_names dt nd pl)) as [Hr|Hr]; [|left; now apply dispatch_sound].
+  destruct (daction_eqb (disp_of dt nd gt pl nl nn) (DShift nl)) eqn:E1; [left; now apply daction_eqb_eq|].
+  destruct (daction_eqb (disp_of dt nd gt pl nl nn) DRefuse) eqn:E2; [right; now apply daction_eqb_eq|].
+  exfalso. apply Hs. unfold shadowed_at. apply in_concat.
+  eexists. split.
+  - apply in_map_iff. exists nl. split; [reflexivity|exact Hk].
+  - apply in_concat. eexists. split.
+    + apply in_map_iff. exists nn. split; [reflexivity|]. now apply dedup_in.
+    + rewrite E1, E2. simpl. now left.
+Qed.
+
+(* the lemmas exactly as Properties_C04.v states them *)
+Lemma initial_ok kok : Inv kok empty_parent /\ Rel empty_parent [].
+Proof. split; [apply Inv_empty|apply Rel_empty]. Qed.
+
+Theorem order_views kok nok disp ops s0 t0 :
+  Inv kok s0 -> Rel s0 t0 -> OrdInv s0 -> disp_ok kok nok disp -> ops_ok kok nok ops -> writes_ok t0 ops ->
+  hist_order_safe disp s0 ops = true ->
+  forall k, view_session (fst (run disp s0 ops)) k = view_file (fst (run disp s0 ops)) k.
+Proof.
+  intros I R O D Ho Hw Hs k. apply OrdInv_views. eapply run_order; eauto.
+Qed.
+
+Theorem content_tables dt nd gt pl ops :
+  let kok := fun k => smem k (sound_kinds dt nd gt pl) in
+  let nok := fun nm => negb (smem nm (reserved_names dt nd pl)) in
+  let disp := disp_of dt nd gt pl in
+  ops_ok kok nok ops -> writes_ok [] ops ->
+  let s := fst (run disp empty_parent ops) in
+  let t := fst (i_run [] ops) in
+  snd (run disp empty_parent ops) = snd (i_run [] ops) /\
+  (forall k nm, vlookup nm (view_session s k) = i_view t k nm) /\
+  (forall k nm, vlookup nm (view_file s k) = i_view t k nm) /\
+  (forall k, view_session (reopen s) k = view_file s k) /\
+  (forall k, NoDup (map fst (view_session s k))) /\
+  (forall k, NoDup (map fst (view_file s k))).
+Proof.
+  intros kok nok disp Ho Hw.
+  exact (content_agree kok nok disp ops empty_parent [] (Inv_empty kok) Rel_empty (dispatch_disp_ok dt nd gt pl) Ho Hw).
 Qed.
 
 (* ------------------------------------------------------------------------------------------------ witnesses *)
